@@ -1,2 +1,8 @@
 //! Reference models and independent recognisers (never call the code under test).
 pub mod civil;
+pub mod doc_model;
+pub mod faulty_store;
+pub mod iota_did;
+pub mod jose_policy;
+pub mod jws_ref;
+pub mod jws_split;
